@@ -119,10 +119,18 @@ func (p *PKCS7PaddingWriter) Write(buff []byte) (n int, err error) {
 	if p.cache.Len() > p.blockSize {
 		// 把超过一个分组长度的部分读取出来，写入到实际的out中
 		size := p.cache.Len() - p.blockSize
-		_, _ = p.cache.Read(p.swap[:size])
-		_, err = p.out.Write(p.swap[:size])
-		if err != nil {
-			return 0, err
+		for size > 0 {
+			// 交换区大小固定，超出部分分批写出
+			k := size
+			if k > len(p.swap) {
+				k = len(p.swap)
+			}
+			_, _ = p.cache.Read(p.swap[:k])
+			_, err = p.out.Write(p.swap[:k])
+			if err != nil {
+				return 0, err
+			}
+			size -= k
 		}
 	}
 	return n, err
@@ -143,6 +151,11 @@ func (p *PKCS7PaddingWriter) Final() error {
 	unpadding := int(b[length-1])
 	if unpadding > p.blockSize || unpadding == 0 {
 		return errors.New("非法的PKCS7填充")
+	}
+	for _, c := range b[length-unpadding:] {
+		if int(c) != unpadding {
+			return errors.New("非法的PKCS7填充")
+		}
 	}
 	_, err := p.out.Write(b[:(length - unpadding)])
 	return err
